@@ -43,8 +43,9 @@ type c09Sched struct {
 	pipeGate func(name string, args []any) (int, bool)
 }
 type c09Ev struct {
-	t  int
-	at string // yield name, or "ret:<value>"
+	t   int
+	at  string // yield name, or "ret:<value>"
+	arg any
 }
 
 func newC09Sched() *c09Sched {
@@ -64,7 +65,11 @@ func (h *c09Sched) hook(name string, args ...any) {
 	ch := make(chan struct{})
 	h.parked[t] = ch
 	h.mu.Unlock()
-	h.event <- c09Ev{t, name}
+	var arg any
+	if len(args) > 1 {
+		arg = args[1]
+	}
+	h.event <- c09Ev{t, name, arg}
 	<-ch
 }
 
@@ -81,7 +86,7 @@ func (h *c09Sched) spawn(t int, f func() string) {
 		h.mu.Lock()
 		delete(h.names, id)
 		h.mu.Unlock()
-		h.event <- c09Ev{t, "ret:" + ret}
+		h.event <- c09Ev{t, "ret:" + ret, nil}
 	}()
 	<-started
 }
@@ -223,6 +228,494 @@ func TestVerifC09Sched(t *testing.T) {
 	stat.Write("c09sched")
 }
 
-var _ = binary.BigEndian
-var _ = io.EOF
-var _ = dnsmessage.TypeA
+// ------------------------------------------------------------------------------------------
+// stream c09pipe: pipelined connections sharing the global response-slot pool
+
+// c09PipeConn is the upstream side of one pipelined connection.
+type c09PipeConn struct {
+	idx    int
+	in     chan []byte   // frames to be read by readLoop
+	idle   chan struct{} // readLoop is blocked in Read with nothing buffered
+	out    chan []byte   // frames written by RoundTrip
+	closed chan struct{}
+	once   sync.Once
+	buf    []byte
+	eof    chan struct{}
+}
+
+func newC09PipeConn(idx int) *c09PipeConn {
+	return &c09PipeConn{idx: idx, in: make(chan []byte, 4), idle: make(chan struct{}, 64), out: make(chan []byte, 64),
+		closed: make(chan struct{}), eof: make(chan struct{})}
+}
+func (c *c09PipeConn) Read(b []byte) (int, error) {
+	for len(c.buf) == 0 {
+		select {
+		case p := <-c.in:
+			c.buf = p
+			continue
+		default:
+		}
+		select {
+		case c.idle <- struct{}{}:
+		default:
+		}
+		select {
+		case p := <-c.in:
+			c.buf = p
+		case <-c.closed:
+			return 0, io.ErrClosedPipe
+		case <-c.eof:
+			return 0, io.EOF
+		}
+	}
+	n := copy(b, c.buf)
+	c.buf = c.buf[n:]
+	return n, nil
+}
+func (c *c09PipeConn) Write(b []byte) (int, error) {
+	select {
+	case <-c.closed:
+		return 0, io.ErrClosedPipe
+	default:
+	}
+	c.out <- append([]byte(nil), b...)
+	return len(b), nil
+}
+func (c *c09PipeConn) Close() error                     { c.once.Do(func() { close(c.closed) }); return nil }
+func (c *c09PipeConn) SetDeadline(time.Time) error      { return nil }
+func (c *c09PipeConn) SetReadDeadline(time.Time) error  { return nil }
+func (c *c09PipeConn) SetWriteDeadline(time.Time) error { return nil }
+
+func c09PipeQuery(tag int) []byte {
+	m := new(dnsmessage.Msg)
+	m.SetQuestion(fmt.Sprintf("t%d.test.", tag), dnsmessage.TypeA)
+	b, _ := m.Pack()
+	return b
+}
+func c09PipeFrame(id, tag int) []byte {
+	m := new(dnsmessage.Msg)
+	m.SetQuestion(fmt.Sprintf("t%d.test.", tag), dnsmessage.TypeA)
+	m.Response = true
+	m.Id = uint16(id)
+	b, _ := m.Pack()
+	out := make([]byte, 2+len(b))
+	binary.BigEndian.PutUint16(out, uint16(len(b)))
+	copy(out[2:], b)
+	return out
+}
+func c09PipeTag(m *dnsmessage.Msg) int {
+	var t int
+	if m != nil && len(m.Question) > 0 {
+		fmt.Sscanf(m.Question[0].Name, "t%d.test.", &t)
+	}
+	return t
+}
+
+type c09PipeRes struct {
+	msg *dnsmessage.Msg
+	err error
+}
+
+type c09PipeWaiter struct {
+	c      int
+	id     int
+	slot   int
+	state  string // idle waiting done
+	cancel context.CancelFunc
+	done   chan c09PipeRes
+}
+
+type c09PipeWorld struct {
+	st     *VStream
+	stat   *VStats
+	h      *c09Sched
+	conns  []*c09PipeConn
+	pcs    []*pipelinedConn
+	ws     []*c09PipeWaiter
+	slots  map[*responseSlot]int
+	dead   []bool      // harness view: connection closed
+	holder map[int]int // logical holder thread -> slot token it is parked with
+}
+
+func (w *c09PipeWorld) slotTok(s *responseSlot) int {
+	if t, ok := w.slots[s]; ok {
+		return t
+	}
+	t := len(w.slots)
+	w.slots[s] = t
+	return t
+}
+
+func (w *c09PipeWorld) resStr(r c09PipeRes, conn int) string {
+	switch {
+	case r.err == nil:
+		tag := c09PipeTag(r.msg)
+		return fmt.Sprintf("msg:%d.%d.%d", r.msg.Id, tag, tag/1000)
+	case r.err == io.ErrUnexpectedEOF:
+		return "eof"
+	case r.err == context.Canceled || r.err == context.DeadlineExceeded:
+		return "ctx"
+	default:
+		return "write-err"
+	}
+}
+
+// waitIdle: readLoop of connection c is blocked reading (or the connection is closed).
+func (w *c09PipeWorld) waitIdle(c int) {
+	select {
+	case <-w.conns[c].idle:
+	case <-w.conns[c].closed:
+	case <-time.After(5 * time.Second):
+	}
+}
+
+// finishWaiter: the waiter's RoundTrip has returned: model steps take (when it received a value) + leave.
+func (w *c09PipeWorld) finishWaiter(i int, r c09PipeRes) {
+	wt := w.ws[i]
+	res := w.resStr(r, wt.c)
+	if r.err == nil || r.err == io.ErrUnexpectedEOF {
+		got := res
+		if res == "eof" {
+			got = "nil"
+		}
+		w.st.Emit(fmt.Sprintf("P take %d", i), "got="+got)
+	}
+	w.st.Emit(fmt.Sprintf("P leave %d", i), "pc=done:"+res)
+	wt.state = "done"
+	w.stat.Inc("pipe.result." + strings.SplitN(res, ":", 2)[0])
+}
+
+// pendingOn: slots still registered in pending of connection c (what closeWithErr will visit).
+func (w *c09PipeWorld) pendingOn(c int) int {
+	n := 0
+	for _, wt := range w.ws {
+		if (wt.state == "waiting" || wt.state == "cancelled") && wt.c == c && w.pcs[c].pending[wt.id].Load() != nil {
+			n++
+		}
+	}
+	return n
+}
+
+func (w *c09PipeWorld) waitEvent() c09Ev {
+	select {
+	case e := <-w.h.event:
+		return e
+	case <-time.After(5 * time.Second):
+		return c09Ev{at: "stuck"}
+	}
+}
+
+// runCloser: the goroutine executing closeWithErr(c) stops at k afterSwap yields; every yield is one
+// `closeswap` + `set` pair of the model.
+func (w *c09PipeWorld) runCloser(c, k int) {
+	for n := 0; n < k; n++ {
+		ev := w.waitEvent()
+		if ev.at != "dnspipe.close.afterSwap" {
+			w.st.Emit(fmt.Sprintf("P closeswap %d -1", c), "unexpected:"+ev.at)
+			return
+		}
+		slot := w.slotTok(ev.arg.(*responseSlot))
+		id := -1
+		for _, wt := range w.ws {
+			if wt.slot == slot && wt.c == c && (wt.state == "waiting" || wt.state == "cancelled") {
+				id = wt.id
+			}
+		}
+		w.st.Emit(fmt.Sprintf("P closeswap %d %d", c, id), fmt.Sprintf("held=%d", slot))
+		w.stat.Inc("pipe.closeswap")
+		w.h.release(2000 + c)
+		// slot.set(nil) happens now; a waiter blocked on that slot returns with ErrUnexpectedEOF
+		w.st.Emit(fmt.Sprintf("P set %d", slot), "box=nil")
+		for i, wt := range w.ws {
+			if wt.state == "waiting" && wt.slot == slot {
+				select {
+				case res := <-wt.done:
+					w.finishWaiter(i, res)
+				case <-time.After(5 * time.Second):
+					w.st.Emit(fmt.Sprintf("P take %d", i), "got=stuck")
+				}
+			}
+		}
+	}
+}
+
+func TestVerifC09Pipe(t *testing.T) {
+	st := VOpenStream("c09pipe")
+	defer st.Close()
+	stat := NewVStats()
+	r := NewVRand(VSeed() + 53)
+	hist := 300
+	if VThorough() {
+		hist = 4000
+	}
+	// idBitmap.Allocate against the model's allocate
+	for i := 0; i < 40; i++ {
+		b := newIdBitmap()
+		var used []string
+		n := r.Intn(200)
+		if i%8 == 0 {
+			n = 64 * (1 + r.Intn(3))
+		}
+		live := map[int]bool{}
+		for k := 0; k < n; k++ {
+			id, err := b.Allocate()
+			if err == nil {
+				live[int(id)] = true
+			}
+			if r.Chance(0.3) && len(live) > 0 {
+				for x := range live {
+					b.Release(uint16(x))
+					delete(live, x)
+					break
+				}
+			}
+		}
+		for x := range live {
+			used = append(used, strconv.Itoa(x))
+		}
+		next := int(b.next.Load())
+		u := "-"
+		if len(used) > 0 {
+			u = strings.Join(used, ",")
+		}
+		id, err := b.Allocate()
+		out := fmt.Sprintf("id=%d", id)
+		if err != nil {
+			out = "id=none"
+		}
+		st.Emit(fmt.Sprintf("P alloc %d %s", next, u), out)
+		stat.Inc("pipe.alloc")
+	}
+	for hi := 0; hi < hist; hi++ {
+		w := &c09PipeWorld{st: st, stat: stat, h: newC09Sched(), slots: map[*responseSlot]int{}, holder: map[int]int{}}
+		nconn := 1 + r.Intn(2)
+		for c := 0; c < nconn; c++ {
+			w.conns = append(w.conns, newC09PipeConn(c))
+		}
+		// park readLoops and closers at their afterSwap yields
+		w.h.pipeGate = func(name string, args []any) (int, bool) {
+			if !strings.HasPrefix(name, "dnspipe.") || len(args) < 2 {
+				return 0, false
+			}
+			pc := args[0].(*pipelinedConn)
+			for c, p := range w.pcs {
+				if p == pc {
+					if name == "dnspipe.readLoop.afterSwap" {
+						return 1000 + c, true
+					}
+					return 2000 + c, true
+				}
+			}
+			return 0, false
+		}
+		verifYieldHook = w.h.hook
+		for c := 0; c < nconn; c++ {
+			w.pcs = append(w.pcs, newPipelinedConn(w.conns[c]))
+			w.dead = append(w.dead, false)
+			w.waitIdle(c)
+		}
+		st.Emit("P reset released", "ok")
+		nw := 2 + r.Intn(4)
+		for i := 0; i < nw; i++ {
+			w.ws = append(w.ws, &c09PipeWaiter{state: "idle", slot: -1})
+		}
+		held := map[int]bool{} // connections whose readLoop is parked holding a slot
+		tagSeq := 0
+		nops := 6 + r.Intn(26)
+		for op := 0; op < nops; op++ {
+			k := r.Intn(10)
+			if k == 9 && !r.Chance(0.25) {
+				k = r.Intn(9)
+			}
+			switch k {
+			case 0, 1, 2: // start a RoundTrip
+				i := r.Intn(nw)
+				c := r.Intn(nconn)
+				if w.ws[i].state != "idle" || w.dead[c] {
+					continue
+				}
+				wt := w.ws[i]
+				ctx, cancel := context.WithCancel(context.Background())
+				wt.cancel, wt.c, wt.done = cancel, c, make(chan c09PipeRes, 1)
+				tagSeq++
+				tag := c*1000 + tagSeq
+				pcn := w.pcs[c]
+				go func() {
+					m, err := pcn.RoundTrip(ctx, c09PipeQuery(tag))
+					wt.done <- c09PipeRes{m, err}
+				}()
+				select {
+				case frame := <-w.conns[c].out:
+					wt.id = int(binary.BigEndian.Uint16(frame[2:4]))
+					wt.slot = w.slotTok(pcn.pending[wt.id].Load())
+					wt.state = "waiting"
+					st.Emit(fmt.Sprintf("P start %d %d %d %d", i, c, wt.id, wt.slot), "ok")
+					stat.Inc("pipe.start")
+				case <-time.After(5 * time.Second):
+					st.Emit(fmt.Sprintf("P start %d %d 0 0", i, c), "stuck")
+				}
+			case 3, 4, 5: // the upstream sends a frame
+				c := r.Intn(nconn)
+				if w.dead[c] || held[c] {
+					continue
+				}
+				// mostly an ID in flight on this connection; sometimes a finished / foreign / out-of-range one
+				id := r.Intn(8)
+				var live []int
+				for _, wt := range w.ws {
+					if wt.c == c && wt.state != "idle" {
+						live = append(live, wt.id)
+					}
+				}
+				if len(live) > 0 && r.Chance(0.8) {
+					id = live[r.Intn(len(live))]
+				}
+				if r.Chance(0.05) {
+					id = 4096 + r.Intn(100)
+				}
+				tagSeq++
+				tag := c*1000 + tagSeq
+				for len(w.conns[c].idle) > 0 {
+					<-w.conns[c].idle
+				}
+				w.conns[c].in <- c09PipeFrame(id, tag)
+				select {
+				case ev := <-w.h.event:
+					slot := w.slotTok(ev.arg.(*responseSlot))
+					held[c] = true
+					w.holder[1000+c] = slot
+					st.Emit(fmt.Sprintf("P recv %d %d %d", c, id, tag), fmt.Sprintf("held=%d", slot))
+					stat.Inc("pipe.recv.held")
+				case <-w.conns[c].idle:
+					st.Emit(fmt.Sprintf("P recv %d %d %d", c, id, tag), "held=-")
+					stat.Inc("pipe.recv.dropped")
+				case <-time.After(5 * time.Second):
+					st.Emit(fmt.Sprintf("P recv %d %d %d", c, id, tag), "stuck")
+				}
+			case 6, 7: // the parked readLoop performs slot.set
+				var cs []int
+				for c := range held {
+					if held[c] {
+						cs = append(cs, c)
+					}
+				}
+				if len(cs) == 0 {
+					continue
+				}
+				c := cs[r.Intn(len(cs))]
+				slot := w.holder[1000+c]
+				held[c] = false
+				w.h.release(1000 + c)
+				w.waitIdle(c)
+				delivered := false
+				for _, wt := range w.ws {
+					if wt.state == "waiting" && wt.slot == slot {
+						delivered = true
+					}
+				}
+				// nobody waits on that slot any more: look into its channel (the send has happened once the
+				// channel is non-empty; a non-blocking send into an empty one-element channel always succeeds)
+				val := "none"
+				if !delivered {
+					for s, tok := range w.slots {
+						if tok != slot {
+							continue
+						}
+						deadline := time.Now().Add(2 * time.Second)
+						for time.Now().Before(deadline) {
+							select {
+							case m := <-s.result:
+								if m == nil {
+									val = "nil"
+								} else {
+									tag := c09PipeTag(m)
+									val = fmt.Sprintf("msg:%d.%d.%d", m.Id, tag, tag/1000)
+								}
+								s.result <- m // put it back
+								deadline = time.Time{}
+							default:
+								runtime.Gosched()
+							}
+						}
+					}
+				}
+				if delivered {
+					// the waiter may already have taken it: report what it got
+					for i, wt := range w.ws {
+						if wt.state == "waiting" && wt.slot == slot {
+							select {
+							case res := <-wt.done:
+								got := w.resStr(res, wt.c)
+								st.Emit(fmt.Sprintf("P set %d", slot), "box="+got)
+								w.finishWaiter(i, res)
+							case <-time.After(5 * time.Second):
+								st.Emit(fmt.Sprintf("P set %d", slot), "box=stuck")
+							}
+						}
+					}
+				} else {
+					st.Emit(fmt.Sprintf("P set %d", slot), "box="+val)
+				}
+				stat.Inc("pipe.set")
+			case 8: // a waiter's context ends: pc.Close() runs closeWithErr in its goroutine
+				i := r.Intn(nw)
+				wt := w.ws[i]
+				if wt.state != "waiting" {
+					continue
+				}
+				c := wt.c
+				st.Emit(fmt.Sprintf("P cancel %d", i), fmt.Sprintf("pc=leaving:%d.%d.%d.0.ctx", c, wt.id, wt.slot))
+				stat.Inc("pipe.cancel")
+				wt.state = "cancelled"
+				alreadyDead := w.dead[c]
+				w.dead[c] = true
+				k := 0
+				if !alreadyDead {
+					k = w.pendingOn(c)
+				}
+				wt.cancel()
+				w.runCloser(c, k)
+				// the closer is the cancelled waiter itself: it now returns
+				var res c09PipeRes
+				select {
+				case res = <-wt.done:
+				case <-time.After(5 * time.Second):
+				}
+				st.Emit(fmt.Sprintf("P leave %d", i), "pc=done:"+w.resStr(res, c))
+				wt.state = "done"
+			case 9: // the peer closes the connection: readLoop runs closeWithErr
+				c := r.Intn(nconn)
+				if w.dead[c] || held[c] {
+					continue
+				}
+				w.dead[c] = true
+				k := w.pendingOn(c)
+				close(w.conns[c].eof)
+				st.Emit(fmt.Sprintf("P close %d", c), "closed=1")
+				stat.Inc("pipe.eof")
+				w.runCloser(c, k)
+			}
+		}
+		// drain: release parked readLoops, close everything, collect waiters
+		for c := range held {
+			if held[c] {
+				w.h.release(1000 + c)
+			}
+		}
+		verifYieldHook = nil
+		for c := range w.pcs {
+			w.pcs[c].Close()
+		}
+		for _, wt := range w.ws {
+			if wt.state == "waiting" || wt.state == "cancelled" {
+				select {
+				case <-wt.done:
+				case <-time.After(5 * time.Second):
+				}
+			}
+		}
+	}
+	stat.Write("c09pipe")
+}
+
+var _ = bytes.Fields
